@@ -1,11 +1,15 @@
 pub mod lsync {
     pub use lightning_signer::prelude::{Arc, Mutex};
 }
+pub mod chain;
+pub mod chain13;
+pub mod chainmc;
 pub mod chanfsm;
 pub mod ev;
 pub mod kvvmc;
 pub mod monitors;
 pub mod props;
+pub mod scenario;
 pub mod secretstore;
 pub mod velocity;
 pub mod vmc;
